@@ -466,7 +466,10 @@ pub fn explore<P: Property>(p: &P, tier: Tier, seed: u64) -> Outcome {
                                         replay: path,
                                     });
                                 }
-                                Judgement::HarnessBug(m) => harness_bugs.lock().unwrap().push(m),
+                                Judgement::HarnessBug(m) => {
+                                    let path = write_replay(p, &case, "harness-problem", &m, seed, tier);
+                                    harness_bugs.lock().unwrap().push(format!("{} (case saved as {})", m, path.display()));
+                                }
                                 Judgement::Pass => harness_bugs.lock().unwrap().push(
                                     "shrunk case passes on re-judgement (non-deterministic oracle?)"
                                         .to_string(),
